@@ -40,7 +40,7 @@ type NetflowV9 struct {
 	port    int
 	addr    string
 	workers int
-	stop    bool
+	stop    uint32
 	stats   NetflowV9Stats
 	pool    chan chan struct{}
 }
@@ -140,7 +140,7 @@ func (i *NetflowV9) run() {
 		i.dynWorkers()
 	}()
 
-	for !i.stop {
+	for atomic.LoadUint32(&i.stop) == 0 {
 		b := netflowV9Buffer.Get().([]byte)
 		conn.SetReadDeadline(time.Now().Add(1e9))
 		n, raddr, err := conn.ReadFromUDP(b)
@@ -164,7 +164,7 @@ func (i *NetflowV9) shutdown() {
 	}
 
 	// stop reading from UDP listener
-	i.stop = true
+	atomic.StoreUint32(&i.stop, 1)
 	logger.Println("stopping netflow v9 service gracefully ...")
 	time.Sleep(1 * time.Second)
 
